@@ -62,6 +62,8 @@ type Step struct {
 	// SameQuery: the request carries the fixed query string "s=same" instead of its token, so that consecutive requests have
 	// byte-identical raw queries; every handler edits the url.Values it got from QueryParams, which are its request's own.
 	SameQuery bool `json:"same_query,omitempty"`
+	// NoQuery: the request target has no query string at all (the handlers still add their "mut" value to what QueryParams returns)
+	NoQuery bool `json:"no_query,omitempty"`
 	// Nested: before it answers, the handler looks another request (its own token) up through the router and closes the
 	// context it got: 1 = a route with a hostname parameter, 2 = a static hostname with path parameters. Whatever the nested
 	// lookup records belongs to the nested request.
@@ -88,6 +90,7 @@ type exp struct {
 	clone     string
 	viaLookup bool
 	sameQuery bool
+	noQuery   bool
 	nested    int
 	// loose: a request with an empty path segment in the region an infix catch-all scans. Which handler answers it is C01's
 	// business; here only the per-request data (request, query, headers, writer state) is judged, and what the request leaves
@@ -203,6 +206,9 @@ func (h *harness) inspect(where string, c fox.Context, entry bool) *exp {
 		}
 	}
 	qtok := e.tok
+	if e.noQuery {
+		qtok = ""
+	}
 	if e.sameQuery {
 		qtok = ""
 		if got := c.QueryParam("s"); got != "same" {
@@ -509,6 +515,9 @@ func buildStep(s Step, tok string, n int) (*http.Request, *exp) {
 	if s.SameQuery {
 		query, e.sameQuery = "?s=same", true
 	}
+	if s.NoQuery {
+		query, e.sameQuery, e.noQuery = "", false, true
+	}
 	req := httptest.NewRequest(method, "http://"+host+path+query, nil)
 	req.Header.Set("X-Tok", tok)
 	req.RemoteAddr = remoteOf(tok) + ":4711"
@@ -633,7 +642,7 @@ func (h *harness) recheckClones() {
 				h.fail("%s: Request() is not a copy", pre)
 				return
 			}
-			if !strings.Contains(cl.Request().URL.Path, e.tok) || (cl.QueryParam("q") != e.tok && !e.sameQuery) || (e.sameQuery && cl.QueryParam("s") != "same") || cl.Header("X-Tok") != e.tok {
+			if !strings.Contains(cl.Request().URL.Path, e.tok) || (cl.QueryParam("q") != e.tok && !e.sameQuery && !e.noQuery) || (e.sameQuery && cl.QueryParam("s") != "same") || cl.Header("X-Tok") != e.tok {
 				h.fail("%s: request data path=%q q=%q X-Tok=%q", pre, cl.Request().URL.Path, cl.QueryParam("q"), cl.Header("X-Tok"))
 			}
 			if got, want := cl.RemoteIP().String(), remoteOf(e.tok); got != want {
@@ -692,6 +701,7 @@ func genStep(t *rapid.T) Step {
 	s := Step{Kind: gen.Pick(t, kinds, "kind")}
 	s.CloneWith = gen.Chance(t, 1, 4, "clonewith")
 	s.SameQuery = gen.Chance(t, 1, 3, "samequery")
+	s.NoQuery = gen.Chance(t, 1, 4, "noquery")
 	if gen.Chance(t, 1, 3, "clone") {
 		s.Clone = gen.Pick(t, []string{"before", "after"}, "when")
 	}
